@@ -130,6 +130,7 @@ type streamOpts struct {
 	lossyDatagrams bool // datagram links lose, duplicate, reorder and corrupt: soundness only
 	history        []dsim.Rec
 	asOf           time.Duration // when the events were snapshot (0 = end of run): later sends do not count
+	stalls         bool          // stall injection was on: relations between instants of different tasks are void
 }
 
 func (e *env) checkEventStream(events []obs, opt streamOpts) {
@@ -308,7 +309,9 @@ func (e *env) checkEventStream(events []obs, opt streamOpts) {
 		}
 		// a stream channel that was expired (read timeout) had consumed everything that had arrived
 		// before the deadline fired: a peer's frame completely sent before that instant surfaced
-		if opt.lossless && opt.consumerAlive && l.conn != nil && s.closes == 1 && isTimeout(s.closeErr) && !l.peerReset {
+		// (not under stall injection: a reader preempted between arming its deadline and starting the
+		// read finds the deadline passed, and a socket then fails the read even with data buffered)
+		if opt.lossless && opt.consumerAlive && !opt.stalls && l.conn != nil && s.closes == 1 && isTimeout(s.closeErr) && !l.peerReset {
 			var fired time.Duration = -1
 			want := l.conn.Peer.Name + " read timeout"
 			for _, r := range opt.history {
@@ -556,7 +559,8 @@ func eventStreamRun(keyed bool) func(h []dsim.Rec) {
 	}
 	cfg.hbPeriod = time.Duration(200+dsim.Choose(5000)) * time.Millisecond
 	cfg.hbDisable = dsim.Choose(4) == 3
-	if dsim.Choose(3) == 2 {
+	stalls := dsim.Choose(3) == 2
+	if stalls {
 		dsim.EnableStalls(1 + dsim.Choose(20))
 	}
 	cfg.srEnable = dsim.Choose(3) == 2
@@ -681,7 +685,7 @@ func eventStreamRun(keyed bool) func(h []dsim.Rec) {
 	return func(h []dsim.Rec) {
 		// events observed up to the quiescent instant are judged for completeness; the full log
 		// (including what arrived during Close) for ordering
-		e.checkEventStream(snapshot, streamOpts{nodeClosedAt: closedAt, consumerAlive: alive, lossless: true, lossyDatagrams: lossy, history: h, asOf: asOf})
+		e.checkEventStream(snapshot, streamOpts{nodeClosedAt: closedAt, consumerAlive: alive, lossless: true, lossyDatagrams: lossy, history: h, asOf: asOf, stalls: stalls})
 		e.checkEventStream(cons.events, streamOpts{nodeClosedAt: 1, consumerAlive: false, lossless: true, lossyDatagrams: lossy, history: h})
 	}
 }
